@@ -3,13 +3,14 @@ package yubiagent
 //vsym:pkg github.com/theparanoids/ysshra/agent/yubiagent
 //vsym:entry H20_serve_wait
 //vsym:entry H20_serve_broadcast
+//vsym:entry H20_serve_pipelined
 //vsym:entry H20_client_wait
 //vsym:model golang.org/x/crypto/ssh/agent.NewClient m20NewClient
 //vsym:model github.com/theparanoids/ysshra/agent/ssh/connection.GetConn m20GetConn
 //vsym:model (*golang.org/x/crypto/ssh/agent.server).processRequestBytes m20Process
 //vsym:replay none
-//vsym:expect-cover C20.serve.wait-same-code C20.serve.wait-other-code C20.serve.wait-out-of-range C20.serve.broadcast C20.client.wait
-//vsym:bound H20_serve_wait: one wait frame [35, code] with the code symbolic, served by a real *server over a real *shimagent.Server; H20_serve_broadcast: one frame of 1..2 bytes with a symbolic first byte outside 31..35; H20_client_wait: every code
+//vsym:expect-cover C20.serve.wait-same-code C20.serve.wait-other-code C20.serve.wait-out-of-range C20.serve.broadcast C20.serve.pipelined C20.client.wait
+//vsym:bound H20_serve_wait: one wait frame [35, code] with the code symbolic, served by a real *server over a real *shimagent.Server; H20_serve_broadcast: one frame of 1..2 bytes with a symbolic first byte outside 31..35; H20_serve_pipelined: two such frames back to back in one stream, delivered in one read or byte by byte; H20_client_wait: every code
 //vsym:assume sync.Cond / Locker are ghost events; the served shim agent's underlying agent is a stub
 
 import (
@@ -32,20 +33,55 @@ type m20NetConn struct {
 	in  []byte
 	pos int
 	out []byte
+	bytewise bool // deliver one byte per Read
 }
 
 func (n *m20NetConn) Read(p []byte) (int, error) {
 	if n.pos >= len(n.in) {
 		return 0, io.EOF
 	}
-	k := copy(p, n.in[n.pos:])
+	avail := n.in[n.pos:]
+	if n.bytewise && len(p) > 0 {
+		avail = avail[:1]
+	}
+	k := copy(p, avail)
 	n.pos += k
 	return k, nil
 }
 func (n *m20NetConn) Write(p []byte) (int, error) { n.out = append(n.out, p...); return len(p), nil }
 func (n *m20NetConn) Close() error                { return nil }
 
-func m20GetConn(addr string) (net.Conn, error) { return &m20NetConn{}, nil }
+// the underlying agent's connection: answers every complete request frame
+// with the one-byte failure reply
+type m20UpConn struct {
+	net.Conn
+	got     []byte
+	pending []byte
+}
+
+func (u *m20UpConn) Write(p []byte) (int, error) {
+	u.got = append(u.got, p...)
+	for len(u.got) >= 4 {
+		l := int(u.got[0])<<24 | int(u.got[1])<<16 | int(u.got[2])<<8 | int(u.got[3])
+		if len(u.got) < 4+l {
+			break
+		}
+		u.got = u.got[4+l:]
+		u.pending = append(u.pending, 0, 0, 0, 1, 5)
+	}
+	return len(p), nil
+}
+func (u *m20UpConn) Read(p []byte) (int, error) {
+	if len(u.pending) == 0 {
+		return 0, io.EOF
+	}
+	k := copy(p, u.pending)
+	u.pending = u.pending[k:]
+	return k, nil
+}
+func (u *m20UpConn) Close() error { return nil }
+
+func m20GetConn(addr string) (net.Conn, error) { return &m20UpConn{}, nil }
 func m20Process(_ *int, req []byte) []byte      { return []byte{5} }
 
 func h20Server() *server {
@@ -100,6 +136,31 @@ func H20_serve_broadcast() {
 	} else {
 		vAssert(len(log) < 13 || log[:13] != "Lock#1;CondBr", "C20.out-of-range-code-broadcasts-nothing")
 	}
+}
+
+// H20_serve_pipelined: requests sent back to back on one connection are all
+// received: each one broadcasts its code (a client on another connection may
+// be waiting for the second one).
+func H20_serve_pipelined() {
+	srv := h20Server()
+	a, b := vNondetU8("first"), vNondetU8("second")
+	vAssume(vOr(a < AgentMessageAddHardCert, a > AgentMessageWait))
+	vAssume(vOr(b < AgentMessageAddHardCert, b > AgentMessageWait))
+	vAssume(vAnd(a < 40, b < 40))
+	c := &m20NetConn{in: []byte{0, 0, 0, 1, a, 0, 0, 0, 1, b}}
+	c.bytewise = vChoose(2, "byte-by-byte") == 1
+	vSyncReset()
+	vCatch(func() { ServeAgent(srv, c) })
+	log := vSyncLog()
+	n := 0
+	for i := 0; i+13 <= len(log); i++ {
+		if log[i:i+13] == "CondBroadcast" {
+			n++
+		}
+	}
+	vAssert(n == 2, "C20.pipelined-requests-each-broadcast-their-code")
+	vAssert(len(c.out) == 10, "C20.pipelined-requests-each-answered")
+	vReach("C20.serve.pipelined")
 }
 
 func H20_client_wait() {
